@@ -35,19 +35,33 @@ def job(args):
             for i, f in enumerate(c["files"]):
                 n = f["rows"]
                 ids = [1000 * (i + 1) + j for j in range(n)]
-                df = pd.DataFrame({"x": pd.Series(ids, dtype="int64"), "s": pd.Series(["f%dr%d" % (i, j) for j in range(n)], dtype="str")})
+                df = pd.DataFrame({"x": pd.Series(ids, dtype="int64"), "s": pd.Series(["f%dr%d" % (i, j) for j in range(n)], dtype="str"),
+                                   "b": pd.Series([b"%04d" % j for j in range(n)], dtype=object)})
+                wkw = {"fixed_text": {"b": 4}, "object_encoding": {"b": "bytes", "s": "utf8"}}
                 if c["badschema"] == i + 1:
-                    df = df.rename(columns={"s": "other"})
+                    kind = c.get("badkind", "name")
+                    if kind == "name":
+                        df = df.rename(columns={"s": "other"})
+                        wkw["object_encoding"] = {"b": "bytes", "other": "utf8"}
+                    elif kind == "ptype":
+                        df["s"] = pd.Series(range(n), dtype="int64")
+                        wkw["object_encoding"] = {"b": "bytes"}
+                    elif kind == "width":
+                        wkw["fixed_text"] = {"b": 8}
+                    elif kind == "logical":
+                        df["x"] = pd.Series(ids, dtype="int64").astype("datetime64[ns]")
+                    elif kind == "optional":
+                        wkw["has_nulls"] = False
                 sub = {"flat": "", "hive": "k=%d" % f["key"], "drill": "v%d" % f["key"],
                        "hive2": "k=%d/m=%d" % (f["key"], 3 - f["key"]), "drill2": "v%d/w%d" % (f["key"], 3 - f["key"])}[shape]
                 os.makedirs(os.path.join(root, sub), exist_ok=True)
                 p = os.path.join(root, sub, "file%d.parquet" % i)
-                fp.write(p, df, write_index=False)
+                fp.write(p, df, write_index=False, **wkw)
                 paths.append(p)
                 for j in range(n):
                     want.append((ids[j], f["key"] if shape != "flat" else None))
             sig = {"way": c["way"], "root_given": bool(c.get("rootgiven")), "shape": shape, "paths": c["pathkind"], "files": "3+" if len(paths) >= 3 else str(len(paths)),
-                   "verify": bool(c["verify"]), "different_schema": c["badschema"] != 0,
+                   "verify": bool(c["verify"]), "different_schema": c["badschema"] != 0, "schema_differs_in": (c.get("badkind", "name") if c["badschema"] else "nothing"),
                    "empty_file": any(f["rows"] == 0 for f in c["files"])}
             out["evals"] += 1
             os.chdir(root)
